@@ -18,11 +18,13 @@ META = {
                   '(= state_visible_statement, the monitor form: is_connected=true is published only after a successful connect that follows '
                   'every earlier closeConnection); closed_visible_run; reconnect_rate_limited (under AttemptsAtomic, a monitored clause with '
                   'proved monitor soundness; rate tests of identification requests included); callbacks_once_ident_run (after checkHWIdent has '
-                  'passed on a reconnect the registered callbacks run one by one, in order, once); stale_discarded_run, reply_pairing_run '
+                  'passed on a reconnect the registered callbacks run one by one, in order, once); fails_within_timeout_all (an empty recv ends no later '
+                  'than one recv period after the time-out of the read it belongs to - of a command, an identification request or a readBytes of '
+                  'getFullReply); stale_discarded_run, reply_pairing_run '
                   '(every reply completed is the first line / first rlen bytes of what ARRIVED AFTER the caller\'s own send, unless the '
                   'connection was replaced or dropped since).  For accepted runs of communicators WITHOUT identification in addition: '
-                  'state_visible_run, callbacks_once_run, fails_within_timeout_run (replies of fixed length); reply_own_ret (replies of fixed '
-                  'length).  Step level (any configuration): reconnect_mark_kept_partial, callbacks_after_ident_partial, ident_failed_partial, '
+                  'state_visible_run, callbacks_once_run, fails_within_timeout_run (the special case of _all); for replies of fixed length: '
+                  'reply_own_ret.  Step level (any configuration): reconnect_mark_kept_partial, callbacks_after_ident_partial, ident_failed_partial, '
                   'variable_reply_partial and the *_partial guards.  Proved for all inputs: framing_chunk_independent (+_bytes, _eq_unchunked); '
                   'polling_resumes_partial.  Every clause is judged by its Lean monitor on every run of the real StringIO/BytesIO under the '
                   'deterministic scheduler (every access of a thread to shared state is a scheduling point), and every run is replayed through '
@@ -33,8 +35,8 @@ META = {
                   '(multicomm_atomic, exchange_atomic); the other run-level theorems are stated at the events where the facts arise, their link '
                   'to the `ret`-window form of the monitors is by the model\'s `ret` guard, not a separate theorem (the `*_statement` definitions '
                   'keep the monitor forms); with an identification configured state_visible_run (closed_visible_run is the general form), '
-                  'callbacks_once_run (callbacks_once_ident_run is the form with identification), fails_within_timeout_run and reply_own_ret are '
-                  'NOT proved - these runs are covered by the monitors and the correspondence; polling_resumes is judged on the real poll '
+                  'callbacks_once_run (callbacks_once_ident_run is the form with identification) do not apply; reply_own_ret is NOT proved for '
+                  'replies of variable length - covered by the monitors and the correspondence; polling_resumes is judged on the real poll '
                   'thread only.',
     'trusted': [
         'FakeConn.recv blocks at most AsynConn.timeout (1 s) and returns one device chunk at a time; flush_recv drains what has arrived (as AsynTcp); '
@@ -55,7 +57,7 @@ META = {
         'wait_before with an end-of-line inside a command (several sends per communicate)',
         'write_is_connected from a client, the generic read wrapper of modulebase (only its late announce of is_connected - discarded since the repair of F39 - is modelled)',
         'the real poll thread (only polling_resumes is judged on it)',
-        'with identification: state_visible_run, callbacks_once_run (the forms without identification), fails_within_timeout_run, reply_own_ret',
+        'with identification: state_visible_run, callbacks_once_run are replaced by closed_visible_run / callbacks_once_ident_run; replies of variable length: reply_own_ret',
         'a caller that closes a connection another thread has just opened but not yet published (is_connected is still false: the update false is no event); '
         'modelled on the side of the connecting thread (event `drop`), not observed in the runs',
     ],
